@@ -27,6 +27,7 @@ EXPLANATION = (
     "coordinates; the noise factor reaches the Hilbert factor of size q+1 through Gram-preserving steps and one row flip, so its Gram matrix is 1/(2q+1-i-j); all three factories build "
     "both tables and the preconditioner for len(tcoeffs)-1 derivatives."
 )
+TRUSTED_VALUE_PRIMITIVES = ("solve_lu",)  # default solve of the Pade / Legendre initialisers
 LEVEL = "other"
 TECHNIQUE = "constant folding of the source tables with exact rational arithmetic against closed forms; abstract interpretation with a polynomial-degree domain; value-numbering normal form; loop-invariant (recurrence) matching with rational-function identities; symbolic index semantics of vmap/flip/broadcasting"
 LEVEL_TEXT = (
